@@ -584,6 +584,13 @@ Theorem C13_step_refines_strings : forall w o ao,
   conforms_from w (with_model_facts o) ao.
 Proof. exact step_refines_strings. Qed.
 
+(** the same for a history and a call given by their strings: no hypothesis about facts at all *)
+Theorem C13_step_refines_reachable_strings : forall init ops o ao,
+  WInv2 init -> WPrintable init -> forallb (fun x => negb (KnownFacts x)) ops = true -> KnownFacts o = false ->
+  Known13 (run init (map with_model_facts ops)) (with_model_facts o) = false -> abs_op o = Some ao ->
+  conforms_from (run init (map with_model_facts ops)) (with_model_facts o) ao.
+Proof. exact step_refines_reachable_strings. Qed.
+
 (** a history given by strings only, on <r><a x="1">t</a><b/></r>: create_element("p:e"),
     set_attribute(e, "xmlns:p", "u&amp;v"), create_processing_instruction("t", "  d?"),
     create_entity_reference("amp"), set_node_value(x, "a&#65;b'c"), append_child(b, e), then five
@@ -637,3 +644,4 @@ Print Assumptions C13_model_facts_agree.
 Print Assumptions C13_step_refines_model_facts.
 Print Assumptions C13_step_refines_reachable_model_facts.
 Print Assumptions C13_step_refines_strings.
+Print Assumptions C13_step_refines_reachable_strings.
